@@ -1,6 +1,7 @@
 import Driver.Common
 import SSV.Model.Packet
 import SSV.Model.PacketLimit
+import SSV.Model.PacketHistory
 open SSV SSV.Packet
 
 /-! Line-protocol driver of the C05 packet model.  State: the current buffer and a saved wire packet. -/
@@ -8,6 +9,9 @@ open SSV SSV.Packet
 structure St where
   buf : Bytes := []
   wire : Bytes := []
+  shared : Bytes := []                 -- the reused packet buffer of a history
+  cache : DomainCache := []            -- the server unpacker's DomainCache
+  res : ResState := ⟨[], none⟩         -- the direct packer's resolver cache
 
 def canary (seed i : Nat) : UInt8 := UInt8.ofNat (i * 167 + (i / 256) * 13 + seed)
 def payByte (seed j : Nat) : UInt8 := UInt8.ofNat (j * 59 + (j / 256) * 7 + seed * 3 + 101)
@@ -125,6 +129,16 @@ def stepPack (st : St) (kind : String) (fs : List String) : Option (St × String
     let res ← arg fs "res"
     let res? ← (if res == "-" then some none else (parseIP res).map some)
     pure (outPacked st fs (directClientPack (← argInt fs "mtu") res? st.buf (← (arg fs "addr").bind parseAddr) start len))
+  | "directh" =>
+    let resArg ← arg fs "res"
+    let res? ← (if resArg == "-" then some none else (parseIP resArg).map some)
+    let r := directClientPackS SSV.Gen.C05.updateDomainIPCacheProg (← argInt fs "mtu") res? st.res (← (arg fs "addr").bind parseAddr) start len
+    let out := match r.2 with
+      | .ok p => s!"ok {p.packetStart} {p.packetLen} {match p.dest with | some (.v4 x) => "4:" ++ toHexField x | some (.v6 x) => "6:" ++ toHexField x | none => "-"}"
+      | .err e => s!"err {showErr e}"
+      | .panic => "panic"
+      | .noRoom => "noRoom"
+    pure ({ st with res := r.1 }, out)
   | "directs" =>
     pure (outPacked st fs (directServerPack (← (arg fs "target").bind parseAddr) ((← argNat fs "only") == 1) st.buf
       (← (arg fs "src").bind parseAddrPort) start len (← argInt fs "max")))
@@ -138,13 +152,17 @@ def stepUnpack (st : St) (kind : String) (fs : List String) : Option (St × Stri
     let idh ← argNat fs "idh"
     let lookup := (← argNat fs "lookup") == 1
     let users : List (Bytes × Bytes) := [((← argHex fs "uhash"), aeadKey)]
-    pure (outUnpacked showAddr st fs start len
-      (ssServerUnpack toyCrypto (blockFor idh) aeadKey idh lookup users (← argInt fs "now") st.buf start len))
+    let r := ssServerUnpackC st.cache toyCrypto (blockFor idh) aeadKey idh lookup users (← argInt fs "now") st.buf start len
+    pure (outUnpacked showAddr { st with cache := r.1 } fs start len r.2)
   | "ssc" =>
     pure (outUnpacked showAddrPort st fs start len
       (ssClientUnpack toyCrypto userBlock aeadKey (← argHex fs "csid") (← argInt fs "now") st.buf start len))
-  | "nones" => pure (outUnpacked showAddr st fs start len (plainServerUnpack false st.buf start len))
-  | "socks5s" => pure (outUnpacked showAddr st fs start len (plainServerUnpack true st.buf start len))
+  | "nones" =>
+    let r := plainServerUnpackC st.cache false st.buf start len
+    pure (outUnpacked showAddr { st with cache := r.1 } fs start len r.2)
+  | "socks5s" =>
+    let r := plainServerUnpackC st.cache true st.buf start len
+    pure (outUnpacked showAddr { st with cache := r.1 } fs start len r.2)
   | "nonec" =>
     pure (outUnpacked showAddrPort st fs start len
       (plainClientUnpack false (← (arg fs "server").bind parseAddrPort) (← (arg fs "from").bind parseAddrPort) st.buf start len))
@@ -167,6 +185,9 @@ def stepOpt (st : St) (fs : List String) : Option (St × String) :=
     let seed ← seed.toNat?
     if start + len > st.buf.length then pure (st, "panic")
     else pure ({ st with buf := splice st.buf start ((List.range len).map (payByte seed)) }, "ok")
+  | ["stash"] => pure ({ st with shared := st.buf }, "ok")
+  | ["unstash"] => pure ({ st with buf := st.shared }, "ok")
+  | ["newsession"] => pure ({ st with cache := [], res := ⟨[], none⟩ }, "ok")
   | ["take", start, len] => do
     let start ← start.toNat?
     let len ← len.toNat?
